@@ -521,6 +521,31 @@ func genTable(cfg Config, emit func(string, bool, []string)) {
 				g.add("commit")
 				g.nsnap++
 			}
+			if withStem {
+				// write operations on the stem key itself after the node below it was rebuilt
+				g.add("wtxn m")
+				g.add("mod m %s 5 0 x74 - 0 900", hx([]byte{'k'}))
+				g.add("get w m id %s", hx([]byte{'k'}))
+				g.add("commit")
+				g.nsnap++
+				// a key with exactly 16 one-byte extensions: a CompareAndSwap on a missing 17th
+				// extension is rejected, but inserts and reverts (17 -> 16 children) on the way
+				g.add("wtxn m")
+				g.add("ins m %s 1 0 - - 0 950", hx([]byte{'j'}))
+				for i := 0; i < 16; i++ {
+					g.add("ins m %s %d 0 - - 0 %d", hx([]byte{'j', byte(5*i + 3)}), i, 951+i)
+				}
+				g.add("commit")
+				g.nsnap++
+				g.add("wtxn m")
+				g.add("cas m big %s 7 0 - - 0 990", hx([]byte{'j', 0xf0}))
+				g.add("get w m id %s", hx([]byte{'j'}))
+				g.add("mod m %s 3 0 - - 0 950", hx([]byte{'j'}))
+				g.add("cad m big %s", hx([]byte{'j', 0xf1}))
+				g.add("all w m")
+				g.add("commit")
+				g.nsnap++
+			}
 			for s := 0; s < g.nsnap; s++ {
 				g.sweep(fmt.Sprintf("s%d", s), 4)
 			}
@@ -574,9 +599,24 @@ func genTable(cfg Config, emit func(string, bool, []string)) {
 					g.add("delall %s", tn)
 				case x < 90:
 					g.query("w")
-				case x < 93:
+				case x < 92:
 					if g.nsnap > 0 {
 						g.query(fmt.Sprintf("s%d", r.IntN(g.nsnap)))
+					}
+				case x < 93:
+					// a second write transaction commits to a table this one does not hold; this
+					// transaction's view of that table (queries, change iterators) stays frozen
+					if tabs == "m" || tabs == "a" {
+						other := map[string]string{"m": "a", "a": "m"}[tabs]
+						g.add("side %s %s", other, g.obj(other))
+						g.add("all w %s", other)
+						g.add("rev w %s", other)
+						g.add("num w %s", other)
+						for _, ci := range openIters {
+							if r.IntN(2) == 0 {
+								g.add("next %d w %d", ci, []int{-1, -1, 0, 1}[r.IntN(4)])
+							}
+						}
 					}
 				case x < 96:
 					if withInit && len(g.liveDones) > 0 {
@@ -1270,6 +1310,16 @@ func (e *tableExec) do(o *Out, f []string) string {
 			}
 		}
 		// graveyard entries are only kept when a tracker is registered
+		for _, tn := range []string{"m", "a"} {
+			if !strings.Contains(e.wtables, tn) {
+				// not held: other transactions may have committed to it meanwhile
+				if tn == "m" {
+					e.txnRef.m = e.committed.m
+				} else {
+					e.txnRef.a = e.committed.a
+				}
+			}
+		}
 		e.committed = e.txnRef
 		e.txnRef = nil
 		e.snaps = append(e.snaps, rtx)
@@ -1467,6 +1517,35 @@ func (e *tableExec) do(o *Out, f []string) string {
 		}
 		rt.pending = np
 		return "ok"
+	case "side":
+		// another write transaction, on a table the open one does not hold, inserts and commits
+		tn := f[1]
+		if e.wtxn == nil || strings.Contains(e.wtables, tn) || e.gcAt == "gc-scanned" {
+			return "bad-op"
+		}
+		obj := parseTObj(f[2:])
+		tbl := e.tbl(tn)
+		w2 := e.db.WriteTxn(tbl)
+		old, hadOld, err := tbl.Insert(w2, obj)
+		e.committed = e.committed.clone()
+		rt := e.committed.t(tn)
+		want, wantHad := rt.objs[obj.ID]
+		if err != nil || hadOld != wantHad || (hadOld && (old.ID != want.o.ID || old.Val != want.o.Val)) {
+			o.Fail("C03", "wrong-result", map[string]string{"op": "side-insert"}, fmt.Sprintf("Insert in a second write transaction on %s: hadOld=%v err=%v, want hadOld=%v", tn, hadOld, err, wantHad))
+		}
+		rt.rev++
+		rt.objs[obj.ID] = refObj{obj, rt.rev}
+		delete(rt.grave, obj.ID)
+		w2.Commit()
+		saveW, saveR := e.txnWrites, e.txnRejects
+		e.txnWrites, e.txnRejects = map[string]int{tn: 1}, map[string]int{}
+		e.afterTxn(o, true)
+		e.txnWrites, e.txnRejects = saveW, saveR
+		oldS := "-"
+		if hadOld {
+			oldS = showRO(old, want.rev)
+		}
+		return oldS + " ok"
 	case "changes":
 		tn := f[1]
 		if e.wtxn == nil {
